@@ -15,6 +15,19 @@
 // The scripted peer answers / ignores / rejects each ping as the pattern says. All times
 // are microseconds of virtual time since the start of the scenario.
 //
+// Two environment dimensions of the model are realised at the session levels: the peer of a
+// ServerSession sends its initialize request before Connect (slot 0), 3/8 of an interval
+// after the j-th tick, or never; the context given to Connect is kept alive or cancelled 7/8
+// of an interval after the k-th tick (k = 0: right after Connect returned).
+//
+// Nothing here waits for the implementation to do something: every wait ends at an instant
+// fixed by the script (the owner's closing instant, the handler's release, the end of the
+// quiet period), and what has not happened by then is recorded as such (session still open,
+// keep-alive loop still alive, no ping attempted) for the monitor to judge. A real-time
+// watchdog outside the bubbles cuts the quiet period short after c13Soft and, should a
+// scenario still not return (virtual time cannot advance while a goroutine is blocked on
+// something synctest does not know), reports it and exits after c13Hard.
+//
 // Unexported identifiers used (package mcp): startKeepalive, the keepaliveSession
 // interface (implemented by c13Pinger), and internal/jsonrpc2.ErrRejected.
 package mcp
@@ -34,6 +47,8 @@ import (
 	"strconv"
 	"strings"
 	"sync"
+	"sync/atomic"
+	"syscall"
 	"testing"
 	"testing/synctest"
 	"time"
@@ -49,6 +64,8 @@ type c13Exp struct {
 	Unit    int    `json:"unit"`
 	Final   string `json:"final"`
 	Ticks   []int  `json:"ticks"`
+	HsAt    int    `json:"hsAt"` // model units: when the peer completes the handshake (0 before Connect returns, -1 never)
+	CcAt    int    `json:"ccAt"` // model units: when the Connect context is cancelled (-1 never)
 }
 
 type c13Case struct {
@@ -57,6 +74,8 @@ type c13Case struct {
 	T       int      `json:"T"`
 	End     string   `json:"end"`
 	Drain   int      `json:"drain"`
+	Hs      int      `json:"hs"` // handshake slot: 0 before Connect returns, j after the j-th tick, -1 never
+	Cc      int      `json:"cc"` // Connect-context slot: -1 kept alive, k cancelled after the k-th tick
 	Levels  []string `json:"levels"`
 	c13Exp
 }
@@ -94,6 +113,12 @@ type c13Obs struct {
 	Settle    int64     `json:"settle"`    // when that census was taken
 	Exit      string    `json:"exit"`      // "clean" or what synctest reported at bubble exit
 	Hand      string    `json:"hand"`      // handshake variant
+	Hs        int       `json:"hs"`        // handshake slot of the case
+	Cc        int       `json:"cc"`        // Connect-context slot of the case
+	HsAt      int64     `json:"hsAt"`      // when the handshake completed (the initialize reply was written), -1 never
+	CcAt      int64     `json:"ccAt"`      // when the context given to Connect was cancelled, -1 never
+	Quiet     int64     `json:"quiet"`     // length of the quiet period observed after the session was over
+	QuietCut  bool      `json:"quietCut"`  // the watchdog cut the quiet period short
 	Exp       c13Exp    `json:"exp"`
 }
 
@@ -110,8 +135,10 @@ type c13Rec struct {
 	over    bool // the session has terminated or its owner closed it
 	nAfter  int
 	abort   chan struct{}
-	endedCh chan struct{} // closed when the session terminates on the SDK's initiative
-	g0      int           // goroutines in the process when the scenario started
+	abortMu sync.Once
+	cancel  context.CancelFunc // of the context given to Connect
+	endedCh chan struct{}      // closed when the session terminates on the SDK's initiative
+	g0      int                // goroutines in the process when the scenario started
 }
 
 // awaitEnd blocks until the session has terminated on its own or the owner's closing
@@ -185,20 +212,34 @@ func (r *c13Rec) next(ctx context.Context) (c13Ping, int) {
 		p.V = "ignore"
 	}
 	if r.over {
-		r.nAfter++
-		if r.nAfter == 3 {
-			close(r.abort)
-		}
+		r.after()
 	}
 	r.obs.Pings = append(r.obs.Pings, p)
 	return p, len(r.obs.Pings) - 1
+}
+
+// after counts keep-alive activity once the session is over (r.mu held); the third
+// occurrence ends the quiet period: what is left behind has been seen.
+func (r *c13Rec) after() {
+	r.nAfter++
+	if r.nAfter >= 3 {
+		r.abortMu.Do(func() { close(r.abort) })
+	}
 }
 
 // attempt records that the session tried to send a ping.
 func (r *c13Rec) attempt() {
 	r.mu.Lock()
 	r.obs.Attempts = append(r.obs.Attempts, r.us())
+	if r.over {
+		r.after()
+	}
 	r.mu.Unlock()
+}
+
+// slotTime is the instant of an environment slot: eighths/8 of an interval after tick k.
+func (r *c13Rec) slotTime(k int, eighths time.Duration) time.Duration {
+	return time.Duration(k)*r.ivl + eighths*r.ivl/8
 }
 
 // pingWatch is a sending middleware that records every keep-alive ping attempt, including
@@ -425,7 +466,15 @@ func (c *c13Conn) Write(ctx context.Context, msg jsonrpc.Message) error {
 			}
 		case "u":
 		}
+	case w.Method == "" && string(w.ID) == `"init"`:
+		// the server's reply to the peer's initialize: the handshake is complete
+		c.r.mu.Lock()
+		c.r.obs.HsAt = c.r.us()
+		c.r.mu.Unlock()
 	case w.Method == "initialize" && len(w.ID) > 0:
+		c.r.mu.Lock()
+		c.r.obs.HsAt = c.r.us()
+		c.r.mu.Unlock()
 		v := w.Params.ProtocolVersion
 		c.push(`{"jsonrpc":"2.0","id":` + string(w.ID) + `,"result":{"protocolVersion":` + strconv.Quote(v) +
 			`,"capabilities":{},"serverInfo":{"name":"peer","version":"1"}}}`)
@@ -442,12 +491,15 @@ type c13Session interface {
 	Wait() error
 }
 
-func c13RunSession(r *c13Rec, thr int, level string) error {
+func c13RunSession(r *c13Rec, thr int, level string, c c13Case) error {
 	o := r.obs
 	conn := &c13Conn{r: r, in: make(chan jsonrpc.Message, 64), done: make(chan struct{})}
 	legacy := []string{"2025-11-25", "2025-06-18", "2025-03-26", "2024-11-05"}
 	ver := legacy[r.rng.IntN(len(legacy))]
-	ctx := context.Background()
+	// the context given to Connect; its cancel function is called at the slot's instant, or
+	// when the scenario is over (c13Scenario)
+	ctx, cancel := context.WithCancel(context.Background())
+	r.cancel = cancel
 	var sess c13Session
 	impl := &Implementation{Name: "verif", Version: "1"}
 	drain := o.End == "drain"
@@ -455,11 +507,18 @@ func c13RunSession(r *c13Rec, thr int, level string) error {
 	slow := `{"jsonrpc":"2.0","id":"slow","method":"tools/call","params":{"name":"slow","arguments":{}}}`
 	if level == "server" {
 		o.Hand = "none"
-		if drain || r.rng.IntN(4) != 0 {
-			o.Hand = ver
+		handshake := func() {
 			conn.push(`{"jsonrpc":"2.0","id":"init","method":"initialize","params":{"protocolVersion":` + strconv.Quote(ver) +
 				`,"capabilities":{},"clientInfo":{"name":"peer","version":"1"}}}`)
 			conn.push(`{"jsonrpc":"2.0","method":"notifications/initialized","params":{}}`)
+		}
+		switch {
+		case c.Hs == 0: // the peer's initialize is waiting when Connect starts reading
+			o.Hand = ver
+			handshake()
+		case c.Hs > 0: // the peer is connected and answers pings (as scripted) but initializes late
+			o.Hand = ver
+			time.AfterFunc(r.slotTime(c.Hs, 3)-time.Since(r.t0), handshake)
 		}
 		s := NewServer(impl, &ServerOptions{KeepAlive: r.ivl, KeepAliveFailureThreshold: thr})
 		s.AddSendingMiddleware(r.pingWatch)
@@ -491,6 +550,14 @@ func c13RunSession(r *c13Rec, thr int, level string) error {
 		sess = cs
 	}
 	o.Start = r.us()
+	if c.Cc >= 0 {
+		time.AfterFunc(r.slotTime(c.Cc, 7)-time.Since(r.t0), func() {
+			r.mu.Lock()
+			o.CcAt = r.us()
+			r.mu.Unlock()
+			cancel()
+		})
+	}
 	go func() {
 		sess.Wait()
 		r.mu.Lock()
@@ -626,10 +693,73 @@ func c13Bubble() (others int, where string, keepalive int) {
 	return others, strings.Join(ws, ";"), keepalive
 }
 
+// ---------------------------------------------------------------------------
+// real-time watchdog (runs outside the bubbles)
+
+var (
+	c13Soft = 3 * time.Second  // a scenario running longer has its quiet period cut short
+	c13Hard = 12 * time.Second // a scenario running longer is reported and the process exits
+)
+
+type c13Watchdog struct {
+	mu      sync.Mutex
+	active  bool
+	what    string
+	started time.Time // real time
+	hurry   atomic.Bool
+	flush   func() // writes out the observations of the scenarios that did finish
+}
+
+var c13W c13Watchdog
+
+func (w *c13Watchdog) begin(what string) {
+	w.mu.Lock()
+	w.active, w.what, w.started = true, what, time.Now()
+	w.hurry.Store(false)
+	w.mu.Unlock()
+}
+
+func (w *c13Watchdog) end() {
+	w.mu.Lock()
+	w.active = false
+	w.mu.Unlock()
+}
+
+// watch is started by the test function, outside any bubble: its clock is the real one.
+func (w *c13Watchdog) watch() {
+	for {
+		time.Sleep(50 * time.Millisecond)
+		w.mu.Lock()
+		active, what, d := w.active, w.what, time.Since(w.started)
+		w.mu.Unlock()
+		if !active {
+			continue
+		}
+		if d > c13Soft {
+			w.hurry.Store(true)
+		}
+		if d > c13Hard {
+			if w.flush != nil {
+				w.flush()
+			}
+			fmt.Printf("\nC13-WATCHDOG scenario %s did not return within %v of real time\n", what, c13Hard)
+			// Nothing that stops the world here (runtime.Stack would wait for ever for a goroutine
+			// that spins inside the runtime): SIGQUIT makes the runtime print every goroutine from
+			// the signal handler and exit.
+			syscall.Kill(os.Getpid(), syscall.SIGQUIT)
+			time.Sleep(5 * time.Second)
+			os.Exit(3)
+		}
+	}
+}
+
 func c13Scenario(t *testing.T, c c13Case, level string, seed uint64) (o *c13Obs) {
 	o = &c13Obs{ID: c.ID, Level: level, Pattern: c.Pattern, T: c.T, End: c.End, Drain: c.Drain, Pings: []c13Ping{},
-		Attempts: []int64{}, Released: -1,
+		Attempts: []int64{}, Released: -1, Hs: c.Hs, Cc: c.Cc, HsAt: -1, CcAt: -1,
 		Closed: -1, UserClose: -1, Ended: -1, Exit: "clean", Hand: "", Exp: c.c13Exp}
+	c13W.begin(fmt.Sprintf("id=%d level=%s pattern=%s T=%d end=%s drain=%d hs=%d cc=%d seed=%d", c.ID, level,
+		strings.Join(c.Pattern, "")+"-", c.T, c.End, c.Drain, c.Hs, c.Cc, seed))
+	defer c13W.end()
 	if o.Pattern == nil {
 		o.Pattern = []string{}
 	}
@@ -652,17 +782,37 @@ func c13Scenario(t *testing.T, c c13Case, level string, seed uint64) (o *c13Obs)
 		g0 := runtime.NumGoroutine()
 		r.g0 = g0
 		if level == "func" {
+			o.HsAt = 0
 			c13RunFunc(r, c.T)
-		} else if err := c13RunSession(r, c.T, level); err != nil {
+		} else if err := c13RunSession(r, c.T, level, c); err != nil {
 			o.Exit = "connect: " + err.Error()
 			return
 		}
-		// P4: a long quiet period; anything keep-alive left behind shows up as a ping,
-		// a goroutine, or a bubble that cannot exit.
-		select {
-		case <-time.After(24*time.Hour + 100*ivl):
-		case <-r.abort:
+		// P4: a long quiet period; anything keep-alive left behind shows up as a ping attempt,
+		// a goroutine, or a bubble that cannot exit. A keep-alive loop that the census has
+		// already found alive is not given 24 hours of ticks, and the period ends early at
+		// the third ping attempt or when the watchdog says that real time is running out.
+		total, step := 24*time.Hour+100*ivl, 8*ivl
+		if o.KAAlive > 0 {
+			total = 100 * ivl
 		}
+		var waited time.Duration
+	quiet:
+		for waited < total {
+			d := min(step, total-waited)
+			select {
+			case <-time.After(d):
+				waited += d
+			case <-r.abort:
+				break quiet
+			}
+			step *= 8
+			if c13W.hurry.Load() {
+				o.QuietCut = true
+				break
+			}
+		}
+		o.Quiet = int64(waited / time.Microsecond)
 		synctest.Wait()
 		if d := runtime.NumGoroutine() - g0; d != 0 {
 			// confirm on the goroutine dump: only goroutines of this bubble count
@@ -671,6 +821,9 @@ func c13Scenario(t *testing.T, c c13Case, level string, seed uint64) (o *c13Obs)
 			} else if d > 0 {
 				o.Left, o.LeftAt = d, "(not inspected)"
 			}
+		}
+		if r.cancel != nil {
+			r.cancel() // a Connect context that was kept alive ends with the scenario
 		}
 	})
 	return o
@@ -693,8 +846,26 @@ func TestVerif_C13(t *testing.T) {
 	}
 	defer fout.Close()
 	w := bufio.NewWriterSize(fout, 1<<20)
-	defer w.Flush()
+	var wmu sync.Mutex
+	defer func() {
+		wmu.Lock()
+		w.Flush()
+		wmu.Unlock()
+	}()
 	enc := json.NewEncoder(w)
+	if ms, _ := strconv.Atoi(os.Getenv("VERIF_C13_HARD_MS")); ms > 0 {
+		c13Hard = time.Duration(ms) * time.Millisecond
+	}
+	if ms, _ := strconv.Atoi(os.Getenv("VERIF_C13_SOFT_MS")); ms > 0 {
+		c13Soft = time.Duration(ms) * time.Millisecond
+	}
+	c13W.flush = func() {
+		if wmu.TryLock() {
+			w.Flush()
+			wmu.Unlock()
+		}
+	}
+	go c13W.watch()
 	sc := bufio.NewScanner(fin)
 	sc.Buffer(make([]byte, 1<<16), 1<<22)
 	n := 0
@@ -707,8 +878,14 @@ func TestVerif_C13(t *testing.T) {
 			if level != "func" && level != "server" && level != "client" {
 				t.Fatalf("bad level %q", level)
 			}
+			if level == "func" && (c.Hs != 0 || c.Cc >= 0) || level == "client" && c.Hs != 0 {
+				t.Fatalf("case %d: level %s has no handshake slot %d / Connect context slot %d", c.ID, level, c.Hs, c.Cc)
+			}
 			o := c13Scenario(t, c, level, seed)
-			if err := enc.Encode(o); err != nil {
+			wmu.Lock()
+			err := enc.Encode(o)
+			wmu.Unlock()
+			if err != nil {
 				t.Fatal(err)
 			}
 			n++
